@@ -238,6 +238,39 @@ class Inliner(object):
         h.body = self._block(h.body, fn, stack, inlined, depth)
     if depth >= self.max_depth:
       return [s]
+    # L = [helper(x) for x in xs]  ->  L = []; for x in xs: L.append(helper(x))   (so that the helper can be spliced)
+    if isinstance(s, ast.Assign) and len(s.targets) == 1 and isinstance(s.targets[0], ast.Name) and isinstance(s.value, ast.ListComp) and \
+       len(s.value.generators) == 1 and not s.value.generators[0].is_async and \
+       self._first_inlinable(s.value.elt, fn, stack) is not None and \
+       not any(isinstance(x, ast.Name) and x.id == s.targets[0].id for x in ast.walk(s.value)):
+      self._k += 1
+      gen = s.value.generators[0]
+      tnames = {x.id for x in ast.walk(gen.target) if isinstance(x, ast.Name)}
+      ren = {n_: '%s__c%d' % (n_, self._k) for n_ in tnames}
+      lst = s.targets[0].id
+
+      def rn(node):
+        node = _clone(node)
+        for x in ast.walk(node):
+          if isinstance(x, ast.Name) and x.id in ren:
+            x.id = ren[x.id]
+        return node
+      app = ast.Expr(value=ast.Call(func=ast.Attribute(value=ast.Name(id=lst, ctx=ast.Load()), attr='append', ctx=ast.Load()),
+                                    args=[rn(s.value.elt)], keywords=[]))
+      body = [app]
+      for cond in reversed(gen.ifs):
+        body = [ast.If(test=rn(cond), body=body, orelse=[])]
+      loop = ast.For(target=rn(gen.target), iter=_clone(gen.iter), body=body, orelse=[])
+      init = ast.Assign(targets=[ast.Name(id=lst, ctx=ast.Store())], value=ast.List(elts=[], ctx=ast.Load()))
+      for st in (init, loop):
+        ast.copy_location(st, s)
+        for x in ast.walk(st):
+          if not hasattr(x, 'lineno') and isinstance(x, (ast.expr, ast.stmt)):
+            ast.copy_location(x, s)
+      ast.fix_missing_locations(init)
+      ast.fix_missing_locations(loop)
+      inlined.append('<flag>')
+      return [init] + self._stmt(loop, fn, stack, inlined, depth)
     # which expression of the statement may have calls hoisted out of it
     if isinstance(s, (ast.Expr, ast.Return)):
       holder, attr = s, 'value'
